@@ -112,7 +112,7 @@ def anndef_specs(vec):
          'annotation_type Pair', '    x Int32', '    y Int32', ''] + (['annotation_type Bad', '    p', ''] if vec['r'] == 'Bad' else []) + [
          'struct Sx', '    x Int32', '',
          'annotation Probe = %s(%s)' % (vec['r'], DEF_ARGS[vec['a']]), '',
-         'struct Holder', '    h String', '        @Probe', '']
+         'struct Holder', '    h String'] + (['        @Probe'] if vec.get('used', True) else []) + ['']
     return [('nsa.stone', '\n'.join(a)),
             ('nsb.stone', 'namespace nsb\n\nannotation_type NoteB\n    level Int32 = 1\n'),
             ('nsc.stone', 'namespace nsc\n\nannotation_type NoteC\n    z Int32 = 1\n')]
